@@ -25,7 +25,7 @@ for f in sorted(glob.glob('/repo/**/contracts_verif.go', recursive=True)):
             for t in funcs:
                 if cur in funcs[t]:
                     funcs[t].remove(cur)
-IFACE_PREFIXES = ('server.Handler.', 'server.ReadFileResponseWriter.', 'proto.AccessTimeFileInfo.', 'proto.AccessChangeTimeFileInfo.', 'fs.cbcMode.')
+IFACE_PREFIXES = ('fs.iso9660encodable.', 'server.Handler.', 'server.ReadFileResponseWriter.', 'proto.AccessTimeFileInfo.', 'proto.AccessChangeTimeFileInfo.', 'fs.cbcMode.')
 for t in funcs:
     funcs[t] = [f for f in funcs[t] if not f.startswith(IFACE_PREFIXES)]
 pm = {}
